@@ -126,76 +126,107 @@ func checkInstanceRing(t *testing.T, run *vt.Run, c vt.CaseID, rng *rand.Rand, i
 			ids = append(ids, id)
 		}
 		sort.Strings(ids)
-		ranges := map[string]ring.TokenRanges{}
-		rangeErr := map[string]error{}
-		for _, id := range ids {
-			var tr ring.TokenRanges
-			var e error
-			p, stack := vt.Recover(func() { tr, e = r.GetTokenRangesForInstance(id) })
-			if p != nil {
-				run.Violation(c, "instance-ranges/panic", "GetTokenRangesForInstance panicked", map[string]any{"insts": insts, "instance": id, "panic": fmt.Sprint(p), "stack": stack})
-				return
-			}
-			ranges[id], rangeErr[id] = tr, e
-			// structural: even length, sorted
-			if e == nil {
-				if len(tr)%2 != 0 || !sort.SliceIsSorted(tr, func(i, j int) bool { return tr[i] < tr[j] }) {
-					run.Violation(c, "instance-ranges/malformed", "token ranges not a sorted list of [start,end] pairs", map[string]any{"insts": insts, "instance": id, "ranges": tr})
-				}
-			}
-		}
-		sampled := false
-		lsig := vt.Hash64(fmt.Sprint(insts))
-		for _, k := range keys {
-			rs, err := r.Get(k, ring.WriteNoExtend, nil, nil, nil)
-			if err != nil {
-				run.Violation(c, "instance-ranges/lookup-failed", "lookup failed on an all-active ring with zones = RF", map[string]any{"insts": insts, "key": k, "err": err.Error()})
-				continue
-			}
-			owners := map[string]bool{}
-			for _, i := range rs.Instances {
-				owners[i.Id] = true
-			}
-			perZone := map[string]int{}
+		compare := func(rr ring.ReadRing, ids []string, label string, what string) bool {
+			member := map[string]bool{}
 			for _, id := range ids {
-				in := insts[id]
-				zoneToks := 0
-				for _, o := range insts {
-					if o.Zone == in.Zone {
-						zoneToks += len(o.Tokens)
+				member[id] = true
+			}
+			_ = what
+			ranges := map[string]ring.TokenRanges{}
+			rangeErr := map[string]error{}
+			for _, id := range ids {
+				var tr ring.TokenRanges
+				var e error
+				p, stack := vt.Recover(func() { tr, e = rr.GetTokenRangesForInstance(id) })
+				if p != nil {
+					run.Violation(c, label+"/panic", "GetTokenRangesForInstance panicked", map[string]any{"insts": insts, "instance": id, "panic": fmt.Sprint(p), "stack": stack})
+					return false
+				}
+				ranges[id], rangeErr[id] = tr, e
+				// structural: even length, sorted
+				if e == nil {
+					if len(tr)%2 != 0 || !sort.SliceIsSorted(tr, func(i, j int) bool { return tr[i] < tr[j] }) {
+						run.Violation(c, label+"/malformed", "token ranges not a sorted list of [start,end] pairs", map[string]any{"insts": insts, "instance": id, "ranges": tr})
 					}
 				}
-				if rangeErr[id] != nil {
-					// "no tokens for zone" is the only legitimate refusal here
-					if zoneToks > 0 {
-						run.Violation(c, "instance-ranges/unexpected-error", "GetTokenRangesForInstance failed on a zone-aware ring with zones = RF", map[string]any{"insts": insts, "instance": id, "err": rangeErr[id].Error()})
-					}
+			}
+			sampled := false
+			lsig := vt.Hash64(fmt.Sprint(insts))
+			for _, k := range keys {
+				rs, err := rr.Get(k, ring.WriteNoExtend, nil, nil, nil)
+				if err != nil {
+					run.Violation(c, label+"/lookup-failed", "lookup failed on an all-active ring with zones = RF", map[string]any{"insts": insts, "key": k, "err": err.Error()})
 					continue
 				}
-				inc := ranges[id].IncludesKey(k)
-				cls := classOfKey(k, tokset)
-				run.EvalH(vt.Mix(lsig, vt.Hash64(id), uint64(k)), cls != "other" || k == 0 || k == maxTok)
-				if inc {
-					perZone[in.Zone]++
+				owners := map[string]bool{}
+				for _, i := range rs.Instances {
+					owners[i.Id] = true
 				}
-				if inc != owners[id] {
-					kind := "range-includes-key-not-owned"
-					if !inc {
-						kind = "owned-key-missing-from-ranges"
+				perZone := map[string]int{}
+				for _, id := range ids {
+					in := insts[id]
+					zoneToks := 0
+					for oid, o := range insts {
+						if o.Zone == in.Zone && member[oid] {
+							zoneToks += len(o.Tokens)
+						}
 					}
-					sig := fmt.Sprintf("instance-ranges/%s", kind)
-					run.Violation(c, sig, fmt.Sprintf("GetTokenRangesForInstance(%s).IncludesKey(%d)=%v but Ring.Get assigns the key to %v", id, k, inc, rk.IDs(rs)), map[string]any{
-						"insts": insts, "zones": zones, "instance": id, "key": k, "ranges": ranges[id], "lookup": rk.IDs(rs), "key_class": cls})
+					if rangeErr[id] != nil {
+						// "no tokens for zone" is the only legitimate refusal here
+						if zoneToks > 0 {
+							run.Violation(c, label+"/unexpected-error", "GetTokenRangesForInstance failed on a zone-aware ring with zones = RF", map[string]any{"insts": insts, "instance": id, "err": rangeErr[id].Error()})
+						}
+						continue
+					}
+					inc := ranges[id].IncludesKey(k)
+					cls := classOfKey(k, tokset)
+					run.EvalH(vt.Mix(lsig, vt.Hash64(id), uint64(k)), cls != "other" || k == 0 || k == maxTok)
+					if inc {
+						perZone[in.Zone]++
+					}
+					if inc != owners[id] {
+						kind := "range-includes-key-not-owned"
+						if !inc {
+							kind = "owned-key-missing-from-ranges"
+						}
+						sig := fmt.Sprintf("%s/%s", label, kind)
+						run.Violation(c, sig, fmt.Sprintf("GetTokenRangesForInstance(%s).IncludesKey(%d)=%v but Ring.Get assigns the key to %v", id, k, inc, rk.IDs(rs)), map[string]any{
+							"insts": insts, "zones": zones, "instance": id, "key": k, "ranges": ranges[id], "lookup": rk.IDs(rs), "key_class": cls})
+					}
+					if !sampled && run.WantSample() && len(in.Tokens) > 0 {
+						sampled = true
+						run.Sample(map[string]any{"kind": "instance", "insts": insts, "instance": id, "ranges": ranges[id], "key": k, "includes": inc, "lookup": rk.IDs(rs)})
+					}
 				}
-				if !sampled && run.WantSample() && len(in.Tokens) > 0 {
-					sampled = true
-					run.Sample(map[string]any{"kind": "instance", "insts": insts, "instance": id, "ranges": ranges[id], "key": k, "includes": inc, "lookup": rk.IDs(rs)})
+				for z, n := range perZone {
+					if n > 1 {
+						run.Violation(c, label+"/overlap", "a key is in the ranges of two instances of one zone", map[string]any{"insts": insts, "key": k, "zone": z})
+					}
 				}
 			}
-			for z, n := range perZone {
-				if n > 1 {
-					run.Violation(c, "instance-ranges/overlap", "a key is in the ranges of two instances of one zone", map[string]any{"insts": insts, "key": k, "zone": z})
-				}
+			return true
+		}
+		if !compare(r, ids, "instance-ranges", "ring") {
+			return
+		}
+		// the same on derived rings: shuffle-shard subrings are rebuilt from per-zone token lists by a different
+		// merge, and report ranges / serve lookups like any ring
+		for q := 0; q < 3; q++ {
+			tenant := fmt.Sprintf("tenant-%d", rng.IntN(50))
+			size := zones * (1 + rng.IntN(3))
+			var sub ring.ReadRing
+			if p, stack := vt.Recover(func() { sub = r.ShuffleShard(tenant, size) }); p != nil {
+				run.Violation(c, "subring-ranges/panic", "ShuffleShard panicked", map[string]any{"insts": insts, "panic": fmt.Sprint(p), "stack": stack})
+				return
+			}
+			rs, err := sub.GetAllHealthy(ring.Reporting)
+			if err != nil {
+				continue
+			}
+			sids := rk.IDs(rs)
+			sort.Strings(sids)
+			if !compare(sub, sids, "subring-ranges", fmt.Sprintf("ShuffleShard(%s,%d)", tenant, size)) {
+				return
 			}
 		}
 	})
